@@ -111,6 +111,33 @@ def directed_tools():
         return None, ['harness problem: %r' % (ex,)]
     finally: shutil.rmtree(base, ignore_errors=True)
 
+def directed_scm_variants():
+    """one recipe whose checkoutSCM is written with ${VAR}, reached in two variants (tag v1 below a, tag v2 below b): the ids of a
+    variant do not depend on which variant is reached first, on how often the recipe is reached, or on unrelated roots"""
+    base = tempfile.mkdtemp(prefix='c03v-')
+    try:
+        def model(order, extra_root):
+            R = {'lib': {'checkoutSCM': {'scm': 'git', 'url': 'https://example.invalid/lib.git', 'tag': '${LIBTAG}', 'dir': 'src/${LIBTAG}'}, 'buildScript': 'echo lib\n', 'packageScript': 'echo lib\n'},
+                 'a': {'depends': [{'name': 'lib', 'environment': {'LIBTAG': 'v1'}}], 'buildScript': 'echo a\n', 'packageScript': 'echo a\n'},
+                 'b': {'depends': [{'name': 'lib', 'environment': {'LIBTAG': 'v2'}}], 'buildScript': 'echo b\n', 'packageScript': 'echo b\n'},
+                 'r0': {'root': True, 'depends': order, 'buildScript': 'echo r\n', 'packageScript': 'echo r\n'}}
+            if extra_root: R[extra_root] = {'root': True, 'depends': [{'name': 'lib', 'environment': {'LIBTAG': 'v9'}}], 'buildScript': 'echo x\n', 'packageScript': 'echo x\n'}
+            return {'recipes': R, 'config': {}}
+        ref = None
+        for what, order, extra in (('a before b', ['a', 'b'], None), ('b before a', ['b', 'a'], None), ('an unrelated root reached first', ['a', 'b'], 'aaa-first'), ('an unrelated root reached last', ['a', 'b'], 'zzz-last')):
+            d = os.path.join(base, what.replace(' ', '_')); os.makedirs(d); p = P.Project(root=d); p.write(model(order, extra))
+            q = I.query(p); got = {k: v for k, v in I.ids_of(q).items() if k[0].startswith('r0/')}
+            if got[('r0/a/lib', 'src')] == got[('r0/b/lib', 'src')]:
+                return {'kind': 'same-variant-id-for-different-scm-tags', 'case': what, 'what': 'lib checked out at tag v1 and at tag v2 share one Variant-Id'}, [what]
+            if ref is None: ref = got
+            elif got != ref:
+                diff = sorted(k for k in ref if got.get(k) != ref[k])[:3]
+                return {'kind': 'variant-id-depends-on-which-variant-of-a-recipe-is-reached-first', 'case': what, 'steps': [list(k) for k in diff]}, [what]
+        return None, ['directed scm variants']
+    except Exception as ex:
+        return None, ['harness problem: %r' % (ex,)]
+    finally: shutil.rmtree(base, ignore_errors=True)
+
 def replay(rep):
     import concurrent.futures as cf
     seed = int(os.environ.get('VERIF_SEED', '0') or 0)
@@ -120,7 +147,7 @@ def replay(rep):
     record = {} if os.environ.get('C03_RECORD_GOLDEN') else None
     tried = 0; distinct = set(); samples = []; problems = 0
     with cf.ThreadPoolExecutor(max_workers=8) as ex:
-        futs = [ex.submit(directed_tools)] + [ex.submit(one_case, 7000 + i, golden, record) for i in range(n)]       # fixed seeds: the golden ids refer to them
+        futs = [ex.submit(directed_tools), ex.submit(directed_scm_variants)] + [ex.submit(one_case, 7000 + i, golden, record) for i in range(n)]       # fixed seeds: the golden ids refer to them
         for f in cf.as_completed(futs):
             w, log = f.result(); tried += 1
             if log and (str(log[-1]).startswith('harness problem') or str(log[-1]).startswith('(project invalid')): problems += 1; samples.append({'problem': log[-1]}) if len(samples) < 3 else None; continue
